@@ -246,6 +246,13 @@ def handle (toks : List String) : String :=
     a dead session is serviced in a busy loop -/
 def handleLife (toks : List String) : String :=
   match toks with
+  | [carrier, n, "badpeer", ending] =>
+      -- refused sessions: the branch of AcceptConnection taken after a failed handshake only logs and closes, so a
+      -- refused session is released whatever its peer does next; with anything else in that branch the model declines
+      if (carrier = "tcp" ∨ carrier = "tcptls" ∨ carrier = "starttls") ∧ (ending = "hold" ∨ ending = "close")
+          ∧ (n.toNat?.getD 0 > 0) then
+        if Gen.refusalCloses ∧ Gen.refusalOtherCalls.isEmpty then "grow=0 fd=0 closed=true" else "unmodelled"
+      else "bad-op"
   | [_carrier, _n, closer, ending] =>
       let c := genCfg .both
       -- one run of each hop with the scenario's closing side; the leak per hop is what the model leaves alive
@@ -257,6 +264,27 @@ def handleLife (toks : List String) : String :=
       let spin := ending = "garbage" ∧ Gen.acceptOtherErr ≠ "return" ∧ "smux.ErrInvalidProtocol" ∉ Gen.acceptTerminalErrs
       s!"grow={grow} spin={boolStr (decide spin)}"
   | _ => "bad-op"
+
+/-! ### refused sessions: the branch of server.AcceptConnection taken after a failed session handshake -/
+
+/-- a step of that branch: logging, closing the connection, or a call that returns only when the peer moves
+    (a read, a copy, a wait for the peer's hang-up) -/
+inductive RStep | log | close | waitPeer
+  deriving DecidableEq, Repr
+
+/-- the branch of the code as it is: one `waitPeer` for every call the regenerated fact lists besides logging and
+    the close, then the close (if there is one) -/
+def refusalSteps : List RStep :=
+  Gen.refusalOtherCalls.map (fun _ => RStep.waitPeer) ++ (if Gen.refusalCloses then [RStep.close] else [])
+
+/-- run the branch against a peer that will make `moves` more moves (send bytes, hang up) and then stay silent with
+    its end open: is the refused connection closed? -/
+def refusalRun : List RStep → Nat → Bool
+  | [], _ => false
+  | .close :: _, _ => true
+  | .log :: r, k => refusalRun r k
+  | .waitPeer :: _, 0 => false
+  | .waitPeer :: r, k + 1 => refusalRun r k
 
 /-- e2e prediction for `burst <carrier> <conns> <size>`: every connection delivers all data, then end-of-stream -/
 def handleBurst (toks : List String) : String :=
